@@ -56,4 +56,5 @@ theorem shuffle_perm {α : Type} [DecidableEq α] {g g' : Pcg} {xs ys : List α}
     (h : shuffle g xs fuel = some (ys, g')) : ys.Perm xs :=
   shuffleLoop_perm fuel _ xs g ys g' h
 
+
 end ShuttleProofs.Pct
